@@ -112,7 +112,9 @@ def oracle_run(cfg):
     if k == 'skip':
         md = cfg.get('mode', 'symmetric')
         yl0, yh0 = DTCWTForward(J=J, mode=md)(X)
-        yl, yh = DTCWTForward(J=J, skip_hps=cfg['mask'], mode=md)(X)
+        enc = cfg['seed'] % 3       # the mask as Python bools, as a numpy bool array, as 0/1 ints
+        mask_arg = [bool(v) for v in cfg['mask']] if enc == 0 else (np.array(cfg['mask'], dtype=bool) if enc == 1 else [int(v) for v in cfg['mask']])
+        yl, yh = DTCWTForward(J=J, skip_hps=mask_arg, mode=md)(X)
         if not torch.equal(yl, yl0):
             return dict(detail='lowpass changed by skip_hps')
         for j in range(J):
